@@ -192,6 +192,16 @@ pub fn byte_patterns() -> Vec<Pat> {
         b"(\x80|\xff)b",
         b"[\xc0-\xc1][\x80-\xbf]|[\xf5-\xff][\x80-\xbf]",
         b"(a|\xff)+",
+        // the FULL byte range as a class away from the root (a state whose only edge accepts all 256
+        // values), alone, followed, optional, repeated a fixed number of times
+        b"a(?s:.)",
+        b"a(?s:.)b",
+        b"(?s:.)a",
+        b"(?s:.){2}",
+        b"a(?s:.)?",
+        b"\x01[\x00-\xff]",
+        b"(?s:.)[\x00-\xff]c",
+        b"a(?s:.)|ab",
     ] {
         v.push(Pat::bregex(p));
     }
